@@ -159,6 +159,19 @@ fn prop(c: &Case, ctx: &Ctx) -> PResult {
     write_tree(&ra, &a);
     write_tree(&rb, &b);
     write_tree(&rt, &a);
+    // half of the pairs are trees whose files all carry one and the same old time stamp (unpacked from an archive that keeps
+    // none, or built reproducibly): what has changed is decided by content
+    if c.entries.iter().map(|e| e.seed).fold(0u64, |x, y| x ^ y) % 2 == 1 {
+        let stamp = std::time::UNIX_EPOCH + std::time::Duration::from_secs(1_000_000_000);
+        for (root, files) in [(&ra, &a), (&rb, &b), (&rt, &a)] {
+            for p in files.keys() {
+                if let Ok(f) = std::fs::OpenOptions::new().write(true).open(root.join(p)) {
+                    let _ = f.set_modified(stamp);
+                }
+            }
+        }
+        ctx.class("trees-with-one-old-time-stamp");
+    }
     let patch = guard("ZiPatch::create", || physis::patch::ZiPatch::create(ra.to_str().unwrap(), rb.to_str().unwrap()))?;
     let patch = match patch {
         Some(p) => p,
